@@ -66,7 +66,7 @@ class C07(Prop):
         for r in obs["rows"]:
             f = r["fault"]
             st = STAGE.get(f["point"]) if f["point"] != "backend" else BACKEND_STAGE.get(f["kind"])
-            if st is None or r.get("error") or "then-ok" in f["kind"] or "ws-send-close" in f["kind"]:   # (the open itself succeeds there: the fault is the backend's hang-up afterwards)
+            if st is None or r.get("error") or "then-ok" in f["kind"] or "ws-send-close" in f["kind"] or "ws-idle" in f["kind"]:   # (the open itself succeeds there: the fault is the backend's hang-up afterwards)
                 continue
             s = r["fault_upload_status"]
             code = "WDropped" if s == -1 else "(WAnswered %d)" % (s if s >= 0 else 0)
